@@ -57,7 +57,8 @@ def credential (ss : List Strategy) (r : Req) : Option String :=
   (ss.find? (present · r)).map (value · r)
 
 /-- **the authenticator found usable credentials of its kind in the request**:
-`basic_auth` an `Authorization` header with the `Basic` scheme, `jwt` a value at one of its sources that is a JWT,
+`basic_auth` an `Authorization` header with the `Basic` scheme, `jwt` a value at one of its sources that is a JWT
+(three base64url parts separated by dots, the header naming a signature algorithm heimdall supports),
 `oauth2_introspection` and `generic` a value at one of their sources. `anonymous` and `unauthorized` do not look
 for credentials: they never report missing ones. -/
 def usable (w : World) (a : Authn) (r : Req) : Bool :=
@@ -67,7 +68,7 @@ def usable (w : World) (a : Authn) (r : Req) : Bool :=
   | .basic _ _ => present (.header "Authorization" "Basic") r
   | .jwt ss =>
     match credential ss r with
-    | some tok => w.parses.contains tok
+    | some tok => w.parsesJWT tok
     | none => false
   | .introspection ss => (credential ss r).isSome
   | .generic ss => (credential ss r).isSome
@@ -122,8 +123,16 @@ structure Answer where
   final : Option Obs
 deriving DecidableEq, Repr, Inhabited
 
+/-- what an authenticator is observed to return agrees with what the world says about the credential: it succeeds
+with the subject of an accepted credential and only then -/
+def sameOutcome : Except Err String → Obs → Bool
+  | .ok s, .ok s' => s == s'
+  | .error _, .err _ => true
+  | _, _ => false
+
 /-- Does the observed run satisfy the property?
 * the authenticators are consulted in the configured order, starting with the first, each once;
+* each one succeeds exactly if the credential it finds is acceptable, with the subject of that credential;
 * nothing is consulted after a success, and the subject returned is the one of that success;
 * after a failure the next authenticator is consulted only if the failed one found no usable credentials of its
   kind or allows fallback — and in that case it *is* consulted, if there is one;
@@ -131,7 +140,7 @@ deriving DecidableEq, Repr, Inhabited
 def judge (w : World) (r : Req) : List Authn → List (String × Obs) → Option Obs → Bool
   | [], [], final => final == none
   | a :: as, (id, o) :: rest, final =>
-    id == a.id &&
+    id == a.id && sameOutcome (a.execute w r) o &&
     match o, rest with
     | .ok s, [] => final == some (.ok s)
     | .ok _, _ :: _ => false
